@@ -16,7 +16,7 @@ from harness import rt
 META = dict(
     bounds=dict(
         quick="files produced by independent layout-table writers (specs/layouts.py) for sdf, pdb, gro, mol2, xyz, extxyz, "
-              "poscar (direct/cartesian, selective dynamics, scale factor), chgcar, locpot, cube, charmm crd, fcidump, wfn (contracted shells, "
+              "poscar (direct/cartesian, selective dynamics, scale factor), chgcar, locpot, cube, charmm crd (two segments, residue numbers and residue ids that differ), fcidump, wfn (contracted shells, "
               "function types in standard / rotated / alphabetical / swapped order), wfx (same primitive model; nuclear charges, "
               "energies, virials, gradient rows identified by nuclear name), fchk (s/sp/d shells, restricted/unrestricted orbitals, "
               "densities, six charge kinds, gradient, Hessian, moments, polarizability, frozen atoms, run types; Opt/IRC "
@@ -619,7 +619,10 @@ def h_crd(ctx, natom=2):
         for i in range(natom):
             x, y, z = (ctx.real(f"x{i}_{k}", lo=-900, hi=900, default=1.5 * k - i) for k in range(3))
             w = ctx.real(f"w{i}", lo=0, hi=300, default=12.011)
-            atoms.append((1 + i, "ALA", ["N", "CA"][i % 2], x, y, z, "PROA", 1 + i, w))
+            # two segments: the sequential residue number (column 2) runs on, the residue id (column 9) restarts in each segment
+            seg = "PROA" if i < (natom + 1) // 2 else "WATB"
+            resid = 5 + i if seg == "PROA" else 1 + i - (natom + 1) // 2
+            atoms.append((1 + i, ["ALA", "GLY", "TIP3"][i % 3], ["N", "CA", "OH2"][i % 3], x, y, z, seg, resid, w))
         text = L.write_crd(dict(title="pep", atoms=atoms))
         path = ctx.tmp_path("m.crd")
         ctx.write_text(path, text)
@@ -632,6 +635,11 @@ def h_crd(ctx, natom=2):
         _cmp(ctx, "atcoords", d.atcoords, want, cls, tol=1e-3)
         _cmp(ctx, "atmasses", d.atmasses, _arr(ctx, [a[8] * L.AMU for a in atoms]), cls, tol=("rel", 1e-5))
         _cmp(ctx, "attypes", list(d.atffparams["attypes"]), [a[2] for a in atoms], cls)
+        _cmp(ctx, "resnames", list(d.atffparams["resnames"]), [a[1] for a in atoms], cls)
+        _cmp(ctx, "resnums", np.asarray(d.atffparams["resnums"]), np.array([a[0] for a in atoms]), cls)
+        _cmp(ctx, "segid", list(d.extra["segid"]), [a[6] for a in atoms], cls)
+        _cmp(ctx, "resid", np.asarray(d.extra["resid"]), np.array([a[7] for a in atoms]), cls)
+        _cmp(ctx, "title", d.title.strip(), "pep", cls)
 
 
 # ------------------------------------------------------------------------------------------ FCIDUMP
@@ -1085,6 +1093,7 @@ def jobs(tier):
     for shape in ((1, 1, 1), (1, 2, 7), (2, 1, 6)):
         out.append(job("C03", f"cube[{shape}]", M, "h_cube", dict(shape=shape), max_validate=3))
     out.append(job("C03", "crd", M, "h_crd", dict(natom=2), max_validate=3))
+    out.append(job("C03", "crd[n=5]", M, "h_crd", dict(natom=5), max_validate=3))
     for order in WFN_ORDERS:
         for nprim in (1, 2):
             out.append(job("C03", f"wfn[{order},nprim={nprim}]", M, "h_wfn", dict(order=order, nprim=nprim), max_validate=2))
